@@ -30,8 +30,11 @@ type verifCacheWriter struct {
 	done bool
 }
 
-func (w *verifCacheWriter) Write(p []byte) (int, error) { w.buf = append(w.buf, p...); return len(p), nil }
-func (w *verifCacheWriter) Close() error                { return nil }
+func (w *verifCacheWriter) Write(p []byte) (int, error) {
+	w.buf = append(w.buf, p...)
+	return len(p), nil
+}
+func (w *verifCacheWriter) Close() error { return nil }
 func (w *verifCacheWriter) Commit() error {
 	if !w.done {
 		w.done = true
@@ -433,7 +436,6 @@ func VerifH_C01_verifyHandshakeThreads() {
 	}
 	vr.Reach("end")
 }
-
 
 // C15: after Cache() with the prefetch filter (offset < s) succeeded, every file whose offset is below s is read
 // completely with the backend unreachable; after Cache() without filter (background fetch) every regular file is.
